@@ -17,6 +17,8 @@ type Fork struct {
 	ForkHeight uint64
 	// Swing lets backers move their weight on one side only during Split
 	Swing bool
+	// Lifecycles registers and revokes pillars and sentinels on one side only during Split
+	Lifecycles bool
 }
 
 // NewFork builds the nodes. split chooses which pillar keys go to side A (bitmask
@@ -115,6 +117,11 @@ func (f *Fork) Split(n int, opsA, opsB bool) {
 					}
 				}
 				f.WL.G.ReceiveSome(side, 3)
+			}
+			if f.Lifecycles && w.R.T.Choose(4) == 0 {
+				// registrations and revocations of pillars and sentinels on one branch only
+				side := []*simnode.Node{f.A, f.B}[w.R.T.Choose(2)]
+				FlowByName([]string{"pillar-lifecycle", "sentinel-lifecycle"}[w.R.T.Choose(2)]).Run(f.WL.G, side)
 			}
 			w.Net.Flush()
 			w.StepSlot()
